@@ -72,7 +72,7 @@ def model_check(ctx, quick):
 
 
 def generate(ctx, quick):
-    """Request scripts from TLC -simulate: the general mix and three focused mixes."""
+    """Request scripts from TLC -simulate: the general mix and five focused mixes."""
     base = {"MaxId": 31, "Emit": True, "GenIds": "{" + ", ".join(str(i) for i in range(0, 26)) + "}",
             "GenKeys": "{1, 2, 3, 4, 5}", "GenQs": "{1, 2, 3, 4, 5, 6, 7, 8}", "GenModes": q(["seq", "burst"]),
             "GenKinds": q(["abs", "json", "opq", "hid", "bad"]), "GenFams": "{}", "GenBackends": q(["hashmap", "bbolt"])}
@@ -87,7 +87,16 @@ def generate(ctx, quick):
     # concurrent queries and writes of stored records
     jobs.append((dict(base, MaxReq=20, GenModes=q(["burst"]), GenKinds=q(["json", "opq"]),
                       GenFams=q(["query", "qsub", "insert", "delete", "put", "iw"]), GenQs="{1, 2, 8}",
-                      GenKeys="{1, 2, 3}"), 40 * m))
+                      GenKeys="{1, 2, 3}"), 20 * m))
+    # ... many queries against inserts into the records they iterate over (the in-memory backend hands out
+    # the stored objects themselves)
+    jobs.append((dict(base, MaxReq=24, GenModes=q(["burst"]), GenKinds=q(["json"]), GenBackends=q(["hashmap"]),
+                      GenFams=q(["query", "insert"]), GenQs="{1, 2}", GenKeys="{1, 2, 3}"), 30 * m))
+    # the first requests a database ever sees, concurrently (requests for an unregistered database hold the
+    # lock of the database registry for a moment and release the waiting ones at the same instant)
+    jobs.append((dict(base, MaxReq=16, GenModes=q(["burst"]), GenKinds=q(["abs"]), GenBackends=q(["hashmap"]),
+                      GenFams=q(["get", "sub", "qsub", "put", "insert", "cancel"]),
+                      GenQs="{1, 2, 4, 6}", GenKeys="{1, 2, 3, 5}"), 80 * m))
     # subscriptions fed by writers, cancels
     jobs.append((dict(base, MaxReq=16, GenKinds=q(["json", "hid", "opq", "abs"]),
                       GenFams=q(["sub", "qsub", "cancel", "put", "insert", "delete", "iw", "iw"]), GenQs="{1, 2, 3, 4, 8}",
@@ -169,7 +178,7 @@ def sig_of(hist, ej):
     if what == "end":
         missing = ",".join(sorted(set(unanswered(hist[:ej])))) or "none"
         if not ev.get("probe_answered", True):
-            return "wedge:%s:%s:%s" % (mode, init.get("backend", "?"), missing)
+            return "wedge:%s:%s" % (mode, init.get("backend", "?"))
         return "unanswered:%s:%s:%s" % (mode, init.get("backend", "?"), missing)
     return "%s:%s" % (what, mode)
 
@@ -222,7 +231,10 @@ def execute(ctx, scripts):
 
 
 def judge(ctx, scripts, hists, owner):
-    ok, rej, unex = vlib.validate(ctx, "DbApiTrace", "DbApiTrace.cfg", hists, max_reject=60)
+    # one TLC state per event: keep every behaviour far below TLC's limit of 65535 states
+    nev = sum(len(h) for h in hists)
+    ok, rej, unex = vlib.validate(ctx, "DbApiTrace", "DbApiTrace.cfg", hists, max_reject=60,
+                                  chunks=max(1, min(len(hists), (nev + 11999) // 12000)))
     for hi, ej, ev in rej:
         ctx.violation(sig_of(hists[hi], ej), describe(hists[hi], ej),
                       {"script": scripts[owner[hi]], "observed": hists[hi][:ej + 1]})
@@ -261,8 +273,9 @@ def run(ctx):
         "evaluations": len(scripts), "requests_sent": nreq, "events_validated": nev,
         "scripts_by_mode_backend": modes, "histories_unexamined_after_rejections": unex,
         "rule": "request scripts generated by TLC -simulate from spec/DbApiGen.tla (8/12/16 requests, sequential and "
-                "burst mode, hashmap and bbolt; plus three focused mixes: queries over unreadable records, concurrent "
-                "queries and writes, subscriptions with writers); each script runs in a process of its own",
+                "burst mode, hashmap and bbolt; plus focused mixes: queries over unreadable records, concurrent queries "
+                "and writes, first requests on an unopened database, subscriptions with writers); each script runs in "
+                "a process of its own",
         "samples": scripts[:2],
         "exhaustive": False,
     }, ["the model-checked universes are small (2 ids, 1-2 keys, 2-3 requests); the replayed scripts use 26 ids, 5 keys, "
